@@ -53,6 +53,7 @@ def run_for_property(prop, ctx0, verbose=False, jobs=None):
     """Kill variants labelled with `prop` must be reported by prop's check; silence variants must
     leave prop's check silent. Returns coverage extras for the evidence."""
     base = ctx0.repo.sources
+    base_ids = set(f.ident for f in ctx0.findings)      # findings of the tree itself (e.g. known findings)
     killed, missed, stale = [], [], []
     t0 = time.time()
     for vid, edits, props, note in KILL:
@@ -63,6 +64,7 @@ def run_for_property(prop, ctx0, verbose=False, jobs=None):
             stale.append(vid)
             continue
         c, err = run_variant(prop, src)
+        c.findings = [f for f in c.findings if f.ident not in base_ids]
         # an ANALYSIS-ERROR on a broken variant is accepted as "not silently passed" but recorded separately
         if c.findings:
             killed.append({'variant': vid, 'reported': sorted(set(f.rule for f in c.findings))[:4]})
@@ -80,6 +82,7 @@ def run_for_property(prop, ctx0, verbose=False, jobs=None):
             stale.append(vid)
             continue
         c, err = run_variant(prop, src)
+        c.findings = [f for f in c.findings if f.ident not in base_ids]
         if c.findings or err:
             loud.append({'variant': vid, 'reported': [f.rule + ' ' + f.key for f in c.findings][:3], 'error': (err or '')[:200]})
         else:
